@@ -15,12 +15,15 @@
 (*               TriggerAllMissed => nextTick += P whatever `now` is          *)
 (*   Resample    the gather over all series: every sink receives windowEnd;   *)
 (*               the sinks take `lat` ticks                                   *)
-(*   Finish      the gather returned: windowEnd += P, back to the timer;      *)
-(*               the code then pairs results[i] with enumerate(_resamplers):  *)
-(*               if the dict grew meanwhile this raises IndexError and        *)
-(*               resample() ends (phase `crashed`)                            *)
-(*   Restart     the client calls resample() again (what                      *)
-(*               ComponentMetricsResamplingActor._run does on any exception)  *)
+(*   Finish      the gather returned: windowEnd += P, back to the timer.      *)
+(*               The results are paired with the list of sources taken when   *)
+(*               the gather was built, so a series added meanwhile does not   *)
+(*               matter.  (Before /repo 9f8dfea they were paired with         *)
+(*               enumerate(_resamplers); when the dict had grown that raised  *)
+(*               IndexError and ended resample().  The cause is kept as the   *)
+(*               named predicate Dev_AddDuringGather: the trace specification *)
+(*               attaches it to a failing C07.LoopAlive record, so the old    *)
+(*               behaviour is recognised if it ever returns.)                 *)
 (* When the loop runs it runs until nothing is ready, so the states `fired`,  *)
 (* `done0` (sinks without latency) and `due` (a tick already missed when the  *)
 (* gather returns) are transient: no time passes and no series is added in    *)
@@ -43,13 +46,12 @@ Series == 1..NS
 VARIABLES now, created, alignTo, windowEnd, nextTick, phase, busyUntil,
           drift,      \* what the timer reported for the current tick (only logged by the code)
           gathered,   \* number of series in the pending gather (None when there is none)
-          crashes,    \* how often resample() has ended with an exception
           joined,     \* series -> number of ticks already made when it was added, None = not added
           ticks,      \* the timeline: window ends handed out so far, in order
           h           \* history of actions, hidden by VIEW
 
-vars == <<now, created, alignTo, windowEnd, nextTick, phase, busyUntil, drift, gathered, crashes, joined, ticks, h>>
-View == <<now, created, alignTo, windowEnd, nextTick, phase, busyUntil, drift, gathered, crashes, joined, ticks>>
+vars == <<now, created, alignTo, windowEnd, nextTick, phase, busyUntil, drift, gathered, joined, ticks, h>>
+View == <<now, created, alignTo, windowEnd, nextTick, phase, busyUntil, drift, gathered, joined, ticks>>
 
 EmitOn == "OUT_FILE" \in DOMAIN IOEnv
 Emit(v) == IF EmitOn THEN CSVWrite("%1$s", <<ToJson(v)>>, IOEnv.OUT_FILE) ELSE TRUE
@@ -71,7 +73,7 @@ CalcWindowEnd(c, al) ==
 
 Init ==
     /\ now = 0 /\ created = None /\ alignTo = None /\ windowEnd = None /\ nextTick = None
-    /\ phase = "none" /\ busyUntil = None /\ drift = None /\ gathered = None /\ crashes = 0
+    /\ phase = "none" /\ busyUntil = None /\ drift = None /\ gathered = None
     /\ joined = [s \in Series |-> None] /\ ticks = <<>> /\ h = <<>>
 
 Create(c, al) ==
@@ -82,13 +84,13 @@ Create(c, al) ==
        /\ nextTick' = c + P + we[2]              \* loop.time() + period + start_delay
     /\ phase' = "sleep"
     /\ joined' = [joined EXCEPT ![1] = 0]
-    /\ UNCHANGED <<busyUntil, drift, gathered, crashes, ticks>>
+    /\ UNCHANGED <<busyUntil, drift, gathered, ticks>>
     /\ h' = <<[a |-> "create", c |-> c, align |-> al]>>
 
 AddSeries(s) ==
     /\ Quiescent(phase) /\ joined[s] = None
     /\ joined' = [joined EXCEPT ![s] = Len(ticks)]
-    /\ UNCHANGED <<now, created, alignTo, windowEnd, nextTick, phase, busyUntil, drift, gathered, crashes, ticks>>
+    /\ UNCHANGED <<now, created, alignTo, windowEnd, nextTick, phase, busyUntil, drift, gathered, ticks>>
     /\ h' = Append(h, [a |-> "add", s |-> s])
 
 \* how overdue the thing the loop is waiting for would be after one more tick
@@ -99,7 +101,7 @@ TimePass ==
     /\ now < created + Horizon
     /\ Overdue(now + 1) <= MaxLate
     /\ now' = now + 1
-    /\ UNCHANGED <<created, alignTo, windowEnd, nextTick, phase, busyUntil, drift, gathered, crashes, joined, ticks>>
+    /\ UNCHANGED <<created, alignTo, windowEnd, nextTick, phase, busyUntil, drift, gathered, joined, ticks>>
     /\ h' = Append(h, [a |-> "pass"])
 
 TimerFire ==
@@ -107,7 +109,7 @@ TimerFire ==
     /\ drift' = now - nextTick
     /\ nextTick' = nextTick + P                  \* TriggerAllMissed
     /\ phase' = "fired"
-    /\ UNCHANGED <<now, created, alignTo, windowEnd, busyUntil, gathered, crashes, joined, ticks>>
+    /\ UNCHANGED <<now, created, alignTo, windowEnd, busyUntil, gathered, joined, ticks>>
     /\ h' = Append(h, [a |-> "fire", drift |-> now - nextTick, catchup |-> (phase = "due")])
 
 Resample(lat) ==
@@ -116,27 +118,19 @@ Resample(lat) ==
     /\ busyUntil' = now + lat
     /\ gathered' = NSeries
     /\ phase' = IF lat = 0 THEN "done0" ELSE "busy"
-    /\ UNCHANGED <<now, created, alignTo, windowEnd, nextTick, drift, crashes, joined>>
+    /\ UNCHANGED <<now, created, alignTo, windowEnd, nextTick, drift, joined>>
     /\ h' = Append(h, [a |-> "resample", lat |-> lat])
 
-\* the known defect: _resamplers grew while the gather was pending
+\* cause predicate of the repaired defect: _resamplers grew while the gather was pending
 Dev_AddDuringGather == gathered # None /\ NSeries > gathered
 
 Finish ==
     /\ phase \in {"busy", "done0"} /\ now >= busyUntil
-    /\ windowEnd' = windowEnd + P                \* happens before the results are inspected
-    /\ IF Dev_AddDuringGather                    \* results[i] for i >= len(results): IndexError
-       THEN phase' = "crashed" /\ crashes' = crashes + 1 /\ gathered' = gathered
-       ELSE phase' = (IF now >= nextTick THEN "due" ELSE "sleep") /\ crashes' = crashes /\ gathered' = None
-    /\ UNCHANGED <<now, created, alignTo, nextTick, busyUntil, drift, joined, ticks>>
-    /\ h' = Append(h, [a |-> "finish"])
-
-Restart ==
-    /\ phase = "crashed"
+    /\ windowEnd' = windowEnd + P
     /\ phase' = IF now >= nextTick THEN "due" ELSE "sleep"
     /\ gathered' = None
-    /\ UNCHANGED <<now, created, alignTo, windowEnd, nextTick, busyUntil, drift, crashes, joined, ticks>>
-    /\ h' = Append(h, [a |-> "restart"])
+    /\ UNCHANGED <<now, created, alignTo, nextTick, busyUntil, drift, joined, ticks>>
+    /\ h' = Append(h, [a |-> "finish", grown |-> Dev_AddDuringGather])
 
 \* a history is handed to the harness whenever it ends in a quiescent state
 EmitRule == Quiescent(phase') => Emit(h')
@@ -147,9 +141,8 @@ PassStep == TimePass /\ EmitRule
 FireStep == TimerFire /\ EmitRule
 ResampleStep == (\E lat \in LatSet : Resample(lat)) /\ EmitRule
 FinishStep == Finish /\ EmitRule
-RestartStep == Restart /\ EmitRule
 
-Next == CreateStep \/ AddStep \/ PassStep \/ FireStep \/ ResampleStep \/ FinishStep \/ RestartStep
+Next == CreateStep \/ AddStep \/ PassStep \/ FireStep \/ ResampleStep \/ FinishStep
 
 Spec == Init /\ [][Next]_vars
 
@@ -183,21 +176,20 @@ FirstTickWindow == phase # "none" => FirstTickWindowSeq(ticks, created) /\ First
 SameForAllSeries == SameForAll(emitted)
 CaughtUp == (phase = "sleep" /\ now < nextTick) => CaughtUpSeq(ticks, created, now)
 
-\* resample() keeps running (otherwise every later tick is skipped for a client that does not
-\* restart it); the only way the design stops it is the known deviation
-LoopAlive == phase # "crashed"
-LoopAliveOrKnown == LoopAlive \/ Dev_AddDuringGather
+\* C07.LoopAlive (resample() keeps running, otherwise every later tick is skipped) has no
+\* counterpart in the model: no action of the design ends the loop.  It is a clause of the
+\* trace specification, evaluated on the observed task.
 
 (* design-level invariants that explain WHY the clauses hold *)
 \* the timer deadline and the window end advance together: between two ticks they are equal,
 \* while a tick is being processed the timer is exactly one period ahead
 TimerTracksWindow ==
     phase # "none" =>
-       IF phase \in {"sleep", "due", "crashed"} THEN nextTick = windowEnd ELSE nextTick = windowEnd + P
+       IF phase \in {"sleep", "due"} THEN nextTick = windowEnd ELSE nextTick = windowEnd + P
 \* a tick is never handed out before its window has ended
 NeverEarly == phase = "fired" => windowEnd <= now
 TypeOK ==
-    /\ phase \in {"none", "sleep", "fired", "busy", "done0", "due", "crashed"}
+    /\ phase \in {"none", "sleep", "fired", "busy", "done0", "due"}
     /\ \A s \in Series : joined[s] = None \/ joined[s] \in 0..Len(ticks)
 
 =============================================================================
